@@ -9,6 +9,7 @@ random.getstate() as it found it.
 """
 
 import hashlib
+import os
 import random
 from collections import Counter
 
@@ -28,6 +29,11 @@ RULE = ('A case is a history: 1-3 example sets (C03 templates, default '
         'every extract of one (set, seed) equals the first one whenever the '
         'result is claimed to be determined (seed given, or no sampling); '
         'random.getstate() after a seeded call equals the state before it. '
+        'Plus a differential over interpreters: 64 (quick) / 1500 '
+        '(thorough) generated sets are each extracted (list and dict form, '
+        'seed 1 and, where nothing is sampled, no seed) in fresh '
+        'interpreters under PYTHONHASHSEED 0, 1, 4242 and 987654321; the '
+        'results must be equal. '
         'Non-trivial: >=3 distinct examples and >=2 expressions in a '
         'compared result, or a seeded call on the sampling path; distinct by '
         'case hash.')
@@ -79,6 +85,11 @@ def strategy(tier):
 
 
 def valid(case):
+    if 'hashseed_set' in case:
+        s = case['hashseed_set']
+        return isinstance(s, dict) and c03.valid(
+            {'examples': s.get('examples'), 'opts': s.get('opts'),
+             'size': s.get('size'), 'form': 'list'})
     sets = case.get('sets')
     if not isinstance(sets, list) or not sets:
         return False
@@ -147,7 +158,78 @@ def variant_input(xs, variant, key):
     raise ValueError(variant)
 
 
+HASH_SEEDS = ['0', '1', '4242', '987654321']
+
+
+def hashseed_results(sets, ctx):
+    """{hash seed: list of result dicts} from fresh interpreters."""
+    import json
+    import subprocess
+    import sys
+    d = ctx.fresh_dir()
+    path = os.path.join(d, 'sets.json')
+    with open(path, 'w', encoding='utf-8') as f:
+        json.dump(sets, f, ensure_ascii=True)
+    res = {}
+    for hs in HASH_SEEDS:
+        env = dict(os.environ, PYTHONHASHSEED=hs)
+        r = subprocess.run([sys.executable, '-m', 'tv.hashseed_helper', path],
+                           env=env, stdout=subprocess.PIPE,
+                           stderr=subprocess.PIPE, text=True, timeout=1800)
+        if r.returncode != 0:
+            raise RuntimeError('hashseed helper failed: ' + r.stderr[-500:])
+        res[hs] = json.loads(r.stdout)
+    return res
+
+
+def judge_hashseed(s, per_seed):
+    out = Outcome()
+    out.label('hash-seed-differential')
+    base = per_seed[HASH_SEEDS[0]]
+    out.nontrivial = any(isinstance(v, list) and len(v) >= 2
+                         for v in base.values())
+    for hs in HASH_SEEDS[1:]:
+        for (k, v) in per_seed[hs].items():
+            if v != base.get(k):
+                out.violate('same-result-under-any-hash-seed', k.split('/')[0],
+                            '%s: PYTHONHASHSEED=%s gave %r, PYTHONHASHSEED=%s '
+                            'gave %r for examples %r'
+                            % (k, HASH_SEEDS[0], base.get(k), hs, v,
+                               s['examples'][:12]))
+                return out
+    return out
+
+
+def extra(tier, ctx, info, seed_value):
+    """The same extraction in fresh interpreters under different string
+    hash seeds (set / dict iteration order inside rexpy must not leak into
+    the result)."""
+    from hypothesis import given, settings, seed, Phase, HealthCheck
+    from tv.core import derive_seed
+    n = 64 if tier == 'quick' else 1500
+    sets = []
+
+    @seed(derive_seed(seed_value, 'C14-hashseed', 0))
+    @settings(max_examples=n, database=None, deadline=None,
+              phases=[Phase.generate],
+              suppress_health_check=list(HealthCheck))
+    @given(set_strategy(tier))
+    def collect(s):
+        sets.append(s)
+    collect()
+    res = hashseed_results(sets, ctx)
+    info['hashseed_sets'] = len(sets)
+    info['hash_seeds'] = list(HASH_SEEDS)
+    for (i, s) in enumerate(sets):
+        yield ({'hashseed_set': s},
+               judge_hashseed(s, {hs: res[hs][i] for hs in HASH_SEEDS}))
+
+
 def run(case, ctx):
+    if 'hashseed_set' in case:
+        s = case['hashseed_set']
+        res = hashseed_results([s], ctx)
+        return judge_hashseed(s, {hs: res[hs][0] for hs in HASH_SEEDS})
     from tdda.rexpy import rexpy
     out = Outcome()
     sets = case['sets']
@@ -258,6 +340,7 @@ LEVEL_TEXT = ('Generated histories of 2-8 rexpy calls sharing the regex memo '
               'model\'s remembered result for the same (multiset, options, '
               'seed), and the global RNG state is compared before/after '
               'seeded calls.')
-LEVEL_NOTE = ('Schedules are sequential histories in one interpreter; rexpy '
-              'has no thread-level API to schedule. Trusted: Hypothesis, '
+LEVEL_NOTE = ('Schedules are sequential histories in one interpreter (plus '
+              'the same extraction under four string-hash seeds in fresh '
+              'interpreters); rexpy has no thread-level API to schedule. Trusted: Hypothesis, '
               'Python equality of result lists.')
